@@ -117,7 +117,11 @@ func Run(P *sx.Program, id, tier string, seed int64, verifDir string, verbose bo
 				buildErr = fmt.Sprint(r)
 			}
 		}()
+		tb := time.Now()
 		units = pr.Build(c)
+		if os.Getenv("GOCV_TIMING") != "" {
+			fmt.Fprintf(os.Stderr, "build: %.2fs (%d units)\n", time.Since(tb).Seconds(), len(units))
+		}
 	}()
 	if buildErr != "" {
 		fmt.Printf("ERROR building obligations: %s\n", buildErr)
@@ -137,12 +141,17 @@ func Run(P *sx.Program, id, tier string, seed int64, verifDir string, verbose bo
 		units = sel
 	}
 	P.M.SolveHyps = vc.SolveHyps
+	P.M.Feasible = vc.Feasible
 	if P.M.Concretize == nil {
 		// expr.Width determines the shape of expression trees: a width
 		// computed from symbolic data is split into its feasible values
 		P.M.Concretize = map[string]int{"mltwist/pkg/expr.Width": 255}
 	}
+	tc := time.Now()
 	rep := vc.Check(P.M, units, vc.Config{Timeout: timeout, Verbose: verbose})
+	if os.Getenv("GOCV_TIMING") != "" {
+		fmt.Fprintf(os.Stderr, "check: %.2fs\n", time.Since(tc).Seconds())
+	}
 	if verbose {
 		for _, o := range rep.Outcomes {
 			fmt.Printf("  [%s] %s paths=%d size=%d %s %.2fs\n", o.Status, o.Name, o.Paths, o.Size, o.Solver, o.Seconds)
